@@ -2,7 +2,7 @@
    ONLY statements: each theorem is closed by `exact` of a lemma proved elsewhere and followed by Print Assumptions. *)
 From Coq Require Import ZArith NArith List Bool Lia Permutation FMapPositive.
 Import ListNotations.
-Require Import Base Strings Num Builtins Interp Machine Spec HeapFacts Refine1 Refine2 Refine3 Refine4 RelA RelB RelC RunG ShortCircuit DictLazy SeqProofs CallRules.
+Require Import Base Strings Num Builtins Interp Machine Spec HeapFacts Refine1 Refine2 Refine3 Refine4 RelA RelB RelC RunG ShortCircuit DictLazy Float DictLink SeqProofs CallRules.
 
 (* two programs equal except at sub-expressions (related by ANY relation `hole`) that the first run never evaluates nor inspects give the same result and the same effects, whatever stands in those positions (a throw, a divergent call, a print) *)
 Theorem hole_irrelevant (hole : ast -> ast -> Prop) fuel prog prog' stdin hf wf r d :
@@ -67,6 +67,21 @@ Theorem dict_values_are_never_evaluated (rec : list positive -> heap -> world ->
   thenG (runG rec (list value) ip h w ((keys_of) argv)) (fun h' w' keys => DoneG h' w' (inl (VDict (zipd keys (odds argv') []))) 0).
 Proof. exact (DictLazy.dict_values_are_never_evaluated rec sp argv argv' ip h w). Qed.
 Print Assumptions dict_values_are_never_evaluated.
+
+(* merging dictionaries (ㄷ) evaluates no value either: heap and world come back as they were, for an arbitrary evaluator *)
+Theorem dict_merge rec sp d1 d2 ip h w :
+  runG rec value ip h w (bi_add sp [VDict d1; VDict d2]) =
+  DoneG h w (inl (VDict (fold_left (fun a kv => dict_insert a (fst kv) (snd kv)) d2 (fold_left (fun a kv => dict_insert a (fst kv) (snd kv)) d1 [])))) 0.
+Proof. exact (DictLink.dict_merge rec sp d1 d2 ip h w). Qed.
+Print Assumptions dict_merge.
+
+(* and calling a dictionary evaluates the KEY only: the stored value is handed back as it was stored *)
+Theorem call_dict rec ip h w sp d a h1 w1 k d1 :
+  rec ip h w (TComp (proc_body (PKey a))) = Done h1 w1 (inl k) d1 ->
+  runG rec value ip h w (apply_body (EDict d) sp [a]) =
+  match dict_lookup d k with Some v => DoneG h1 w1 (inl v) d1 | None => DoneG h1 w1 (inr (mkerr c_notfound sp)) d1 end.
+Proof. exact (CallRules.call_dict rec ip h w sp d a h1 w1 k d1). Qed.
+Print Assumptions call_dict.
 
 (* pipes: a stage's result goes to the next stage as it was returned - nothing between the stages evaluates it (pipe_spec has no demand between stages) *)
 Theorem call_pipe rec ip h w sp i es argv :
